@@ -253,7 +253,8 @@ ATTR_MTIMES = [1577836800 - 1, 1577836800, 1577836800 + 1, 1577836800 + 43200, 1
                1577836800 + 0.5, 1577836800 + 86399.999, 1577836800 - 0.25, 1609459199.75, 1577836800 + 86400 + 0.001]
 ATTR_FILE_NAMES = ["a", "b.txt", "c.txt", "d.log", "e.LOG", "f.tar.gz", "README", "main.rs", "lib.rs", "x.bin",
                    "size", "name", "mode", "bin", ".hid", ".cfg.toml", "UP.TXT", "n10", "n9", "n100", "zz.md",
-                   "k.c", "k.h", "long-file-name.txt", "s p.txt", "0", "1", "true"]
+                   "k.c", "k.h", "long-file-name.txt", "s p.txt", "0", "1", "true", "é.txt", "Émile", "日本.md", "ź", "ß.c",
+                   "Name", "Size", "x.Extension", "Mode"]
 ATTR_DIR_NAMES = ["src", "doc", "a", "b", "t1", "t2", "lib", "x.d", "bin", "size", ".git2", "Zed"]
 
 
